@@ -1,5 +1,5 @@
 (* C41 — proofs of the lemmas that Props/C41_props.v closes with `exact`. *)
-From PV Require Import Bytes C41.
+From PV Require Import Bytes C41_gen C41.
 From Coq Require Import ZArith List Bool Lia.
 Import ListNotations.
 Open Scope Z_scope.
@@ -261,7 +261,11 @@ Lemma load_line_filter hm st names k :
   | [] => st
   | n' => st ++ [(n', k)]
   end.
-Proof. unfold load_line. rewrite prune_filter. reflexivity. Qed.
+Proof.
+  (* only checks when gen/c41.py found the repaired loop in the source: copy + _has_entry *)
+  unfold load_line. change gen_load_uses_has_entry with true. change gen_load_iterates_copy with true.
+  cbv beta iota zeta. rewrite prune_filter. reflexivity.
+Qed.
 
 (* ------------------------------------------------------------------ *)
 (* has_entry                                                            *)
@@ -424,6 +428,59 @@ Proof.
         specialize (H (ktype (snd e))). unfold eff, subdict_get in H. rewrite L in H.
         cbn in H. rewrite Z.eqb_refl in H. discriminate. }
     rewrite !G. split; intros H t; [rewrite <- save_reload_eff | rewrite save_reload_eff]; apply H.
+Qed.
+
+(* ------------------------------------------------------------------ *)
+(* a load that is aborted by InvalidHostKey is idempotent too            *)
+(* ------------------------------------------------------------------ *)
+Lemma load_t_idempotent hm st f :
+  let r := load_t hm st f in load_t hm (fst r) f = r.
+Proof.
+  unfold load_t. destruct (good_prefix f) as [p b]. cbn [fst].
+  rewrite (proj1 (load_idempotent hm st p)). reflexivity.
+Qed.
+
+(* ------------------------------------------------------------------ *)
+(* hostkeys[q][t] = k takes effect for q                                 *)
+(* ------------------------------------------------------------------ *)
+Lemma sub_replace_eff hm q t k : ktype k = t ->
+  forall st st', sub_replace hm st q t k = Some st' -> eff hm st' q t = Some k.
+Proof.
+  intros Ht. induction st as [|a st IH]; cbn [sub_replace]; intros st' H; [discriminate|].
+  destruct (hostname_matches hm q a && (ktype (snd a) =? t)) eqn:E.
+  - injection H as <-. rewrite eff_find. cbn [find].
+    assert (S1 : sel hm q t (fst a, k) = true).
+    { unfold sel, hostname_matches in *. cbn [fst snd]. apply andb_true_iff in E as [E1 _].
+      rewrite E1. cbn. now apply Z.eqb_eq. }
+    now rewrite S1.
+  - destruct (sub_replace hm st q t k) as [r'|] eqn:R; [|discriminate]. injection H as <-.
+    rewrite eff_find. cbn [find]. unfold sel at 1. rewrite E. rewrite <- eff_find. now apply IH.
+Qed.
+
+Lemma sub_replace_none hm q t k :
+  forall st, sub_replace hm st q t k = None -> eff hm st q t = None.
+Proof.
+  induction st as [|a st IH]; cbn [sub_replace]; intros H; [reflexivity|].
+  destruct (hostname_matches hm q a && (ktype (snd a) =? t)) eqn:E; [discriminate|].
+  destruct (sub_replace hm st q t k) eqn:R; [discriminate|].
+  rewrite eff_find. cbn [find]. unfold sel at 1. rewrite E. rewrite <- eff_find. now apply IH.
+Qed.
+
+Lemma sub_set_effective hm st q t k st' :
+  ktype k = t -> sub_set hm st q t k = Ok st' ->
+  eff hm st' q t = Some k /\ check hm st' q k = true.
+Proof.
+  intros Ht H.
+  assert (G : eff hm st' q t = Some k).
+  { unfold sub_set in H. destruct (lookup hm st q) as [|e0 l0]; [discriminate|].
+    destruct (sub_replace hm st q t k) as [s1|] eqn:R; injection H as <-.
+    - eapply sub_replace_eff; eauto.
+    - rewrite eff_app, (sub_replace_none hm q t k st R).
+      assert (S1 : sel hm q t ([q], k) = true).
+      { unfold sel, hostname_matches, name_matches. cbn [fst snd existsb].
+        rewrite name_eqb_refl. cbn. now apply Z.eqb_eq. }
+      now rewrite S1. }
+  split; [exact G|]. apply check_iff. now rewrite Ht.
 Qed.
 
 (* ------------------------------------------------------------------ *)
